@@ -14,6 +14,7 @@ import Aqv.Lemmas.VmMemAccess
 import Aqv.Lemmas.VmPrecompile
 import Aqv.Lemmas.VmConv
 import Aqv.Lemmas.Translated.VmNat
+import Aqv.Lemmas.Translated.VmPre
 namespace Aqv.Props.C07
 open Aqv.Vm Aqv.Gen.VmFlags
 
@@ -531,5 +532,28 @@ theorem memoryGasCost_code_diverges_above_bound_witness :
     Aqv.Lemmas.Translated.memResNat 0 (Aqv.Gen.Translated.memoryGasCost 0 0 0x2000000000) = some (12884901888, ⟨0, 12884901888⟩) ∧
     memoryGasCost ⟨0, 0⟩ 0x2000000000 = some (36028809903865856, ⟨0, 36028809903865856⟩) :=
   Aqv.Lemmas.Translated.memoryGasCost_nat_model_diverges_witness
+
+/-- tie by translation, precompiles: `RequiredGas` of the seven non-modexp precompiled contracts (ecrecover, sha256hash,
+    ripemd160hash, dataCopy, fakebn256Add, fakebn256ScalarMul, fakebn256Pairing — translated from go/ssa on every run; the input
+    slice is visible only through `len`) computes the model's `Pre.requiredGas addr input` (addresses 1–4, 6–8) for every input
+    below 2^48 bytes; and gasBalance / gasExtCodeSize / gasSLoad return exactly the gas-table field of their name. -/
+theorem precompile_requiredGas_code_is_model (input : Aqv.Bytes) (h : input.length < 2 ^ 48) :
+    (Aqv.Gen.Translated.ecrecover_RequiredGas (input_len := Int64.ofNat input.length)).toNat = Pre.requiredGas 1 input ∧
+    (Aqv.Gen.Translated.sha256hash_RequiredGas (input_len := Int64.ofNat input.length)).toNat = Pre.requiredGas 2 input ∧
+    (Aqv.Gen.Translated.ripemd160hash_RequiredGas (input_len := Int64.ofNat input.length)).toNat = Pre.requiredGas 3 input ∧
+    (Aqv.Gen.Translated.dataCopy_RequiredGas (input_len := Int64.ofNat input.length)).toNat = Pre.requiredGas 4 input ∧
+    (Aqv.Gen.Translated.fakebn256Add_RequiredGas (input_len := Int64.ofNat input.length)).toNat = Pre.requiredGas 6 input ∧
+    (Aqv.Gen.Translated.fakebn256ScalarMul_RequiredGas (input_len := Int64.ofNat input.length)).toNat = Pre.requiredGas 7 input ∧
+    (Aqv.Gen.Translated.fakebn256Pairing_RequiredGas (input_len := Int64.ofNat input.length)).toNat = Pre.requiredGas 8 input :=
+  Aqv.Lemmas.Translated.requiredGas_translated_eq input h
+
+example : (Aqv.Gen.Translated.sha256hash_RequiredGas (input_len := 33)).toNat = Pre.requiredGas 2 (List.replicate 33 0) ∧
+    Aqv.Gen.Translated.fakebn256Pairing_RequiredGas (input_len := 384) = 260000 := by decide
+
+theorem gasTableReads_code_is_model (x ms : UInt64) :
+    Aqv.Gen.Translated.gasBalance (gt_Balance := x) ms = (x, none) ∧
+    Aqv.Gen.Translated.gasExtCodeSize (gt_ExtcodeSize := x) ms = (x, none) ∧
+    Aqv.Gen.Translated.gasSLoad (gt_SLoad := x) ms = (x, none) :=
+  Aqv.Lemmas.Translated.gasTableReads_translated_eq x ms
 
 end Aqv.Props.C07
